@@ -106,7 +106,7 @@ func c08sink(p *Prog, r *Report) {
 					return false
 				}
 				fv, base := fieldOf(x)
-				return fv != nil && fv.Name() == fld && (unwrap(base) == unwrap(pub) || sameOrigin(base, pub))
+				return fv != nil && refName(fv) == fld && (unwrap(base) == unwrap(pub) || sameOrigin(base, pub))
 			})
 		}
 	}
@@ -354,7 +354,7 @@ func c08const(p *Prog, r *Report) {
 				if freshConstSized(base, need) {
 					continue
 				}
-				if fv, _ := fieldOf(base); fv != nil && fv.Name() == "Parents" && fieldOwner(p, fv) == "EventBody" && need <= 2 {
+				if fv, _ := fieldOf(base); fv != nil && refName(fv) == "Parents" && fieldOwner(p, fv) == "EventBody" && need <= 2 {
 					parentsIndexed = true
 					continue // discharged by the arity-2 obligations below and by C08.shape (len(Parents)==2 for received frames)
 				}
@@ -376,7 +376,7 @@ func c08const(p *Prog, r *Report) {
 func describeBase(v ssa.Value) string {
 	v = unwrap(v)
 	if fv, _ := fieldOf(v); fv != nil {
-		return "field " + fv.Name()
+		return "field " + refName(fv)
 	}
 	if pv, ok := v.(*ssa.Parameter); ok {
 		return "parameter " + pv.Name()
@@ -765,10 +765,10 @@ func c08shape(p *Prog, r *Report) {
 					for _, in := range bl.Instrs {
 						if v, ok := in.(ssa.Value); ok {
 							if fv, _ := fieldOf(v); fv != nil {
-								if fv.Name() == "Peers" && fieldOwner(p, fv) == "Frame" {
+								if refName(fv) == "Peers" && fieldOwner(p, fv) == "Frame" {
 									a = true
 								}
-								if fv.Name() == "PeerSets" {
+								if refName(fv) == "PeerSets" {
 									b = true
 								}
 							}
@@ -785,10 +785,10 @@ func c08shape(p *Prog, r *Report) {
 					for _, in := range bl.Instrs {
 						if v, ok := in.(ssa.Value); ok {
 							if fv, _ := fieldOf(v); fv != nil {
-								if fv.Name() == "Roots" {
+								if refName(fv) == "Roots" {
 									a = true
 								}
-								if fv.Name() == "Events" && fieldOwner(p, fv) == "Frame" {
+								if refName(fv) == "Events" && fieldOwner(p, fv) == "Frame" {
 									b = true
 								}
 							}
@@ -1019,6 +1019,21 @@ func c08range(p *Prog, r *Report) {
 			ok, why := p.proveInRange(at, idx, base, slack)
 			if ok {
 				proved[name]++
+			}
+			if !ok && dependsOn(idx, func(x ssa.Value) bool {
+				c, isCall := x.(*ssa.Call)
+				if !isCall {
+					return false
+				}
+				f := calleeFunc(c.Common())
+				return f != nil && f.Pkg() != nil && f.Pkg().Path() == "sort" && strings.HasPrefix(f.Name(), "Search")
+			}) {
+				// position found by a library binary search: its relation to the searched
+				// predicate is not a linear fact; listed, not decided
+				n--
+				exempt++
+				r.Note("%s: not decided %s %s#%d (index derived from sort.Search: %s)", rule, name, what, k, why)
+				return
 			}
 			short := fn.Name()
 			if fn.Signature.Recv() != nil {
